@@ -51,6 +51,7 @@ def analyse_config(rep, config, class_counts):
     R_fb = rep.rule('D-FALLBACK[%s]' % config, 'a path that establishes no feature fact selects code with baseline requirements only', floor=30, unit='entry points')
     reqcache = {}
     npaths = 0
+    selections = {}
     for un, u in sorted(prog.units.items()):
         eps = facts.find_entry_points(u)
         for ep in sorted(eps, key=lambda e: e['name']):
@@ -76,6 +77,7 @@ def analyse_config(rep, config, class_counts):
                 if ok:
                     R_paths.ok(1, sample='%s: facts=%s -> %s' % (ep['name'], sorted(p.facts), p.stored[1]) if len(p.facts) in (0, 9) else None)
                 sym = p.stored[1]
+                selections.setdefault(ep['name'], []).append((p, sym, where))
                 if sym not in reqcache:
                     reqcache[sym] = prog.requirement(sym)
                 req, problems, seen = reqcache[sym]
@@ -103,7 +105,83 @@ def analyse_config(rep, config, class_counts):
                            entry=ep['name'], selected=sym, token=t, paths=len(lst))
             if not has_nofact:
                 R_fb.notes.append('%s: no path without facts' % ep['name'])
+    agree_tableformat(rep, config, selections, reqcache, prog)
     return npaths, prog
+
+
+COUPLED = {'producer': 'ec_init_tables', 'consumers': ['ec_encode_data', 'ec_encode_data_update']}
+
+
+def neg_clauses(p):
+    """negative knowledge of a path as clauses 'not all of these facts hold'; None if a constraint is not of that form"""
+    out = []
+    for n in p.neg:
+        if n.startswith('!all(') and n.endswith(')'):
+            out.append(frozenset(n[5:-1].split(',')))
+        elif n.startswith('!'):
+            out.append(frozenset([n[1:]]))
+        elif n.startswith('?some-of('):
+            continue        # positive disjunction: ignoring it can only make a path pair look feasible when both classes agree anyway or, if they differ, is reported as undecidable below
+        else:
+            return None
+    return out
+
+
+def feasible(p):
+    c = neg_clauses(p)
+    if c is None:
+        return None
+    F = closure(set(p.facts))
+    return not any(cl <= F for cl in c)
+
+
+def agree_tableformat(rep, config, selections, reqcache, prog):
+    """the expanded coefficient tables are a format shared between ec_init_tables (writer) and the encode/update
+    kernels (readers): on every CPU/OS configuration, i.e. for every jointly feasible pair of resolver paths,
+    the writer's format (bytes per coefficient) must be the one the selected reader consumes."""
+    import ecwrap
+    R = rep.rule('D-AGREE-TABLEFMT[%s]' % config, 'for every jointly satisfiable pair of resolver paths of ec_init_tables and of ec_encode_data / ec_encode_data_update (facts of both paths, closed under the '
+                 'dependency relation, contradict no negative outcome of either), the table writer selected (ec_init_tables_base: 32-byte nibble tables, ec_init_tables_gfni: 8-byte affine matrices) '
+                 'matches the reader selected (a kernel set using vgf2p8affineqb reads 8-byte matrices, any other reads 32-byte tables)', floor=2, unit='entry-point pairs')
+    prod = selections.get(COUPLED['producer'])
+    if not prod:
+        raise AnalysisBroken('D-AGREE-TABLEFMT[%s]: entry point %s has no resolver paths' % (config, COUPLED['producer']))
+    s_base, s_gfni = ecwrap.table_stride()
+    fmt_of_writer = {'ec_init_tables_base': s_base, 'ec_init_tables_gfni': s_gfni}
+    for cons in COUPLED['consumers']:
+        cl = selections.get(cons)
+        if not cl:
+            raise AnalysisBroken('D-AGREE-TABLEFMT[%s]: entry point %s has no resolver paths' % (config, cons))
+        R.instance()
+        npairs = 0
+        reported = set()
+        for p1, s1, w1 in prod:
+            if s1 not in fmt_of_writer or fmt_of_writer[s1] is None:
+                raise AnalysisBroken('D-AGREE-TABLEFMT[%s]: ec_init_tables selects %s whose table format is unknown' % (config, s1))
+            c1 = neg_clauses(p1)
+            for p2, s2, w2 in cl:
+                c2 = neg_clauses(p2)
+                if c1 is None or c2 is None:
+                    raise AnalysisBroken('D-AGREE-TABLEFMT[%s]: a resolver path has a branch outcome that is not a feature test (%s / %s)' % (config, sorted(p1.neg), sorted(p2.neg)))
+                F = closure(set(p1.facts) | set(p2.facts))
+                if any(c <= F for c in c1 + c2):
+                    continue
+                npairs += 1
+                req = reqcache[s2][0]
+                reader = s_gfni if 'GFNI' in req else s_base
+                writer = fmt_of_writer[s1]
+                if reader != writer:
+                    if (s1, s2) in reported:
+                        continue
+                    reported.add((s1, s2))
+                    R.fail(w2, 'on a CPU/OS with facts %s (and not %s) ec_init_tables selects %s (%d bytes per coefficient) while %s selects %s, which %s: every table row is misread'
+                           % (sorted(F), sorted(set(p1.neg) | set(p2.neg)), s1, writer, cons, s2,
+                              'uses vgf2p8affineqb on 8-byte matrices (%s)' % req['GFNI'] if 'GFNI' in req else 'reads 32-byte nibble tables'),
+                           key='D-AGREE-TABLEFMT|%s|%s|%s' % (cons, s1, s2))
+        if not npairs:
+            raise AnalysisBroken('D-AGREE-TABLEFMT[%s]: no jointly feasible path pair for %s' % (config, cons))
+        if not reported:
+            R.ok(npairs, sample='%s x %s: %d feasible path pairs, formats agree' % (COUPLED['producer'], cons, npairs))
 
 
 def main(tier):
